@@ -6,7 +6,8 @@
    beacon node.  The resolution of a validator's settings (C10) is an input of each round
    ([v_res], None = cannot be resolved), as are the outcomes of the signing requests, relays and
    nodes; the validators of a round come in an arbitrary order (Go map iteration). *)
-From Verif Require Import Lib.Base Model.C11_Registrations Model.C11_Delivery Proofs.C11 Proofs.C11_Delivery.
+From Verif Require Import Lib.Base Model.C11_Registrations Model.C11_Delivery Model.C11_Accounts
+     Proofs.C11 Proofs.C11_Delivery Proofs.C11_Accounts.
 
 (* ------------------------------------------------------------------------------------------- *)
 (* 1. Content and signer.  In every history, every registration that reaches relay [a] in a round
@@ -307,6 +308,94 @@ Proof. exact timed_relay_failures_isolated. Qed.
 Print Assumptions C11_relay_answers_cancel_nothing.
 
 (* ------------------------------------------------------------------------------------------- *)
+(* 9. WHICH validators: "every validator that is about to be active".  Sections 1-8 take the
+   validators of a round as given.  They are not: the registration job and the proposal preparer ask
+   the accounts provider, which knows from which epoch on every account validates and until which
+   one, and answers the accounts active AT THE EPOCH ASKED FOR (Model/C11_Accounts.v: a history is a
+   list of [eop], each job round and preparation with the current epoch and the provider's table;
+   [run_epochs] says what arrives).  Both ask for the NEXT epoch.  So, for every history and at
+   every epoch: an account the provider reports validating at the next epoch -- active now and still
+   then, or ACTIVATING then, i.e. not yet in the current epoch's answer -- is served by the job's
+   round exactly as section 2 says: the round does its work without reporting an error, and every
+   reachable relay entry of its resolved settings gets its registration unless a signing request of
+   that very validator for that very content failed.  (A round that asked for the current epoch
+   would leave such a validator without any registration until a round after its activation.) *)
+Theorem C11_validators_about_to_be_active_are_registered :
+  forall xs tms i epoch wins r err reqs relays nodes,
+    Forall (fun tm => t_ctx tm = None) tms ->
+    nth_error xs i = Some (EJob epoch wins r) ->
+    nth_error (snd (run_epochs init xs tms)) i = Some (OutRound err reqs relays nodes) ->
+    r_api r = false -> r_acct_err r = false -> r_cfg r = true ->
+    forall v w, In (v, w) (with_windows (r_vals r) wins) -> validating_at (epoch + 1) w = true ->
+      err = false
+      /\ forall res rc, v_res v = Some res -> In rc (rs_relays res) ->
+           reached (kind_of (r_relays r) (rc_addr rc)) = true ->
+           (exists regs sr, In (rc_addr rc, regs) relays /\ In sr regs
+                       /\ sr_content sr = {| ct_fee := rc_fee rc; ct_gas := rc_gas rc; ct_pub := v_pub v |})
+           \/ (exists q, In q reqs /\ q_ok q = false /\ q_acct q = v_acct v
+                         /\ q_content q = {| ct_fee := rc_fee rc; ct_gas := rc_gas rc; ct_pub := v_pub v |}).
+Proof. exact job_serves_next_epoch. Qed.
+Print Assumptions C11_validators_about_to_be_active_are_registered.
+
+(* ... and nobody else: the validators of the job's round are exactly the provider's accounts
+   validating at the next epoch (so whatever reaches a relay names one of them and is signed by its
+   account); the API's round is about the accounts its caller hands over. *)
+Theorem C11_job_round_is_about_the_next_epochs_validators :
+  forall epoch wins r,
+    (r_api r = false ->
+     forall v, In v (r_vals (job_round epoch wins r))
+               <-> exists w, In (v, w) (with_windows (r_vals r) wins) /\ validating_at (epoch + 1) w = true)
+    /\ (r_api r = true -> job_round epoch wins r = r).
+Proof.
+  intros epoch wins r. split.
+  - intros H v. exact (job_round_vals epoch wins r v H).
+  - exact (job_round_api epoch wins r).
+Qed.
+Print Assumptions C11_job_round_is_about_the_next_epochs_validators.
+
+Theorem C11_registrations_name_next_epochs_validators_only :
+  forall (acct_of : N -> N) xs tms i epoch wins r err reqs relays nodes,
+    accts_ok acct_of (elaborate xs) ->
+    Forall (fun tm => t_ctx tm = None) tms ->
+    nth_error xs i = Some (EJob epoch wins r) ->
+    nth_error (snd (run_epochs init xs tms)) i = Some (OutRound err reqs relays nodes) ->
+    r_api r = false ->
+    forall a regs sr, In (a, regs) relays -> In sr regs ->
+      exists v w, In (v, w) (with_windows (r_vals r) wins) /\ validating_at (epoch + 1) w = true
+                  /\ ct_pub (sr_content sr) = v_pub v
+                  /\ sg_acct (sr_sig sr) = v_acct v.
+Proof. exact job_serves_only_next_epoch. Qed.
+Print Assumptions C11_registrations_name_next_epochs_validators_only.
+
+(* The preparer asks the same question: every configured beacon node gets a preparation exactly for
+   the provider's accounts validating at the next epoch whose settings resolve, with the resolved
+   fee recipient ... *)
+Theorem C11_validators_about_to_be_active_are_prepared :
+  forall xs st i epoch wins p err nodes,
+    nth_error xs i = Some (EPrep epoch wins p) ->
+    nth_error (snd (run st (elaborate xs))) i = Some (OutPrepare err nodes) ->
+    p_acct_err p = false ->
+    (exists v w, In (v, w) (with_windows (p_vals p) wins) /\ validating_at (epoch + 1) w = true) ->
+    err = false
+    /\ exists l, nodes = map (fun _ => Some l) (p_nodes p)
+       /\ (forall idx fee, In (idx, fee) l <->
+             exists v w, In (v, w) (with_windows (p_vals p) wins) /\ validating_at (epoch + 1) w = true
+                         /\ v_index v = idx
+                         /\ (if p_cfg p then option_map rs_fee (v_res v) else Some (p_fallback p)) = Some fee).
+Proof. exact preparer_prepares_next_epoch. Qed.
+Print Assumptions C11_validators_about_to_be_active_are_prepared.
+
+(* ... so the registration job and the preparer, run at the same epoch against the same provider,
+   are about the same validators: nobody is registered with the relays without being prepared on
+   the beacon nodes, or the other way round. *)
+Theorem C11_job_and_preparer_are_about_the_same_validators :
+  forall epoch wins r p,
+    r_api r = false -> p_vals p = r_vals r ->
+    p_vals (prep_call epoch wins p) = r_vals (job_round epoch wins r).
+Proof. exact job_and_preparer_agree. Qed.
+Print Assumptions C11_job_and_preparer_are_about_the_same_validators.
+
+(* ------------------------------------------------------------------------------------------- *)
 (* Non-vacuity: a history A -> B -> A of one validator (account 100, key 200) with two relays,
    the second with its own fee recipient, and a second validator whose settings cannot be
    resolved in the second round. *)
@@ -387,3 +476,28 @@ Example C11_delivery_example :
   /\ (forall k, deliver {| t_ctx := Some 300; t_relays := []; t_nodes := [10; 250; 120] |} (OPrepare (ex_prep k)) (step_prepare (ex_prep k))
                 = OutPrepare false [Some [(3, 1)]; Some [(3, 1)]; None]).
 Proof. split; intros []; vm_compute; reflexivity. Qed.
+
+(* Non-vacuity of section 9: at epoch 10 the provider knows validator 200 (activating at epoch 11:
+   not in the current epoch's answer, about to be active), validator 211 (on its last epoch: exits at
+   11) and a validator activating at 12.  The job's round at epoch 10 registers 200 and only 200; one
+   epoch earlier it registers 211 and only 211; the preparer at epoch 10 prepares 200 (index 3). *)
+Definition ex_later : validator :=
+  {| v_index := 7; v_acct := 102; v_pub := 222;
+     v_res := Some {| rs_fee := 4; rs_relays := [ {| rc_addr := 1; rc_fee := 4; rc_gas := 30 |} ] |}; v_sign := [] |}.
+Definition ex_job (epoch now : N) : eop :=
+  EJob epoch [(11, 0); (0, 11); (12, 0)]
+       {| r_now := now; r_cfg := true; r_api := false; r_acct_err := false;
+          r_vals := [ex_val 1 1 []; ex_other true []; ex_later]; r_relays := []; r_nodes := [] |}.
+Example C11_activation_example :
+  validating_at 10 (11, 0) = false /\ validating_at 11 (11, 0) = true
+  /\ map (fun x => match x with
+                   | OutRound _ _ relays _ => map (fun e => (fst e, map (fun sr => ct_pub (sr_content sr)) (snd e))) relays
+                   | OutPrepare _ nodes => map (fun n => (0, match n with Some l => map fst l | None => [] end)) nodes
+                   | _ => []
+                   end)
+         (snd (run_epochs init [ ex_job 9 5; ex_job 10 10;
+                                 EPrep 10 [(11, 0); (0, 11); (12, 0)]
+                                       {| p_cfg := true; p_fallback := 8; p_acct_err := false;
+                                          p_vals := [ex_val 1 1 []; ex_other true []; ex_later]; p_nodes := [POk] |} ] []))
+     = [ [(1, [211])]; [(1, [200]); (2, [200])]; [(0, [3])] ].
+Proof. vm_compute. repeat split; reflexivity. Qed.
